@@ -33,13 +33,16 @@ pub struct Graph {
     pub repeat_in: Option<usize>,
     /// file that spells the path of its first include with a detour (`sub/../fN.td`): the same file
     pub dotdot_in: Option<usize>,
+    /// file of which the INCLUDE_DIR directory holds another file of the same name: the including file's own
+    /// directory is searched first, so the other one is never part of the workspace
+    pub shadow_of: Option<usize>,
 }
 
 impl Graph {
     fn to_json(&self) -> Value {
         json!({
             "n": self.n, "edges": self.edges, "root": self.root, "class_first": self.class_first,
-            "missing_in": self.missing_in, "incdir_file": self.incdir_file, "repeat_in": self.repeat_in, "dotdot_in": self.dotdot_in, "witness": self.witness(),
+            "missing_in": self.missing_in, "incdir_file": self.incdir_file, "repeat_in": self.repeat_in, "dotdot_in": self.dotdot_in, "shadow_of": self.shadow_of, "witness": self.witness(),
         })
     }
 
@@ -53,6 +56,7 @@ impl Graph {
             incdir_file: v["incdir_file"].as_u64().map(|x| x as usize),
             repeat_in: v["repeat_in"].as_u64().map(|x| x as usize),
             dotdot_in: v["dotdot_in"].as_u64().map(|x| x as usize),
+            shadow_of: v["shadow_of"].as_u64().map(|x| x as usize),
         }
     }
 
@@ -72,6 +76,9 @@ impl Graph {
             }
             if self.dotdot_in == Some(i) {
                 s.push_str("+first-include-through-dotdot");
+            }
+            if self.shadow_of == Some(i) {
+                s.push_str("+same-name-in-incdir");
             }
             parts.push(s);
         }
@@ -127,7 +134,11 @@ impl Graph {
     }
 
     fn files(&self) -> Vec<(String, String)> {
-        (0..self.n).map(|i| (self.path_of(i), self.render(i).0)).collect()
+        let mut v: Vec<(String, String)> = (0..self.n).map(|i| (self.path_of(i), self.render(i).0)).collect();
+        if let Some(i) = self.shadow_of {
+            v.push((format!("{INCDIR}/f{i}.td"), format!("class Shadow{i};\n")));
+        }
+        v
     }
 
     fn shrink(&self) -> Vec<Graph> {
@@ -141,6 +152,9 @@ impl Graph {
         if self.repeat_in.is_some() {
             out.push(Graph { repeat_in: None, ..self.clone() });
         }
+        if self.shadow_of.is_some() {
+            out.push(Graph { shadow_of: None, ..self.clone() });
+        }
         if self.dotdot_in.is_some() {
             out.push(Graph { dotdot_in: None, ..self.clone() });
         }
@@ -148,7 +162,7 @@ impl Graph {
             out.push(Graph { class_first: false, ..self.clone() });
         }
         // drop the last file when nothing refers to it
-        if self.n > 1 && self.root != self.n - 1 && self.missing_in != Some(self.n - 1) && self.incdir_file != Some(self.n - 1) && self.repeat_in != Some(self.n - 1) && self.dotdot_in != Some(self.n - 1) {
+        if self.n > 1 && self.root != self.n - 1 && self.missing_in != Some(self.n - 1) && self.incdir_file != Some(self.n - 1) && self.repeat_in != Some(self.n - 1) && self.dotdot_in != Some(self.n - 1) && self.shadow_of != Some(self.n - 1) {
             let mask = !(1u32 << (self.n - 1));
             let mut g = self.clone();
             g.n -= 1;
@@ -198,7 +212,7 @@ fn resolve(existing: &BTreeSet<String>, from_dir: &str, name: &str, incdir: Opti
 pub fn eval_graph(g: &Graph) -> Vec<Failure> {
     let files = g.files();
     let existing: BTreeSet<String> = files.iter().map(|(p, _)| p.clone()).collect();
-    let incdir = g.incdir_file.map(|_| INCDIR);
+    let incdir = g.incdir_file.or(g.shadow_of).map(|_| INCDIR);
     match incdir {
         Some(d) => std::env::set_var("INCLUDE_DIR", d),
         None => std::env::remove_var("INCLUDE_DIR"),
@@ -330,13 +344,17 @@ fn for_each_graph(tier: Tier, ctx: &mut Ctx, mut f: impl FnMut(&mut Ctx, &Graph)
             for root in 0..n {
                 let layouts: &[bool] = if n <= 3 { &[false, true] } else { &[false] };
                 for &class_first in layouts {
-                    let base = Graph { n, edges: edges.clone(), root, class_first, missing_in: None, incdir_file: None, repeat_in: None, dotdot_in: None };
+                    let base = Graph { n, edges: edges.clone(), root, class_first, missing_in: None, incdir_file: None, repeat_in: None, dotdot_in: None, shadow_of: None };
                     if !f(ctx, &base) {
                         return;
                     }
                     if n <= 3 {
                         for v in 0..n {
                             if !f(ctx, &Graph { missing_in: Some(v), ..base.clone() }) {
+                                return;
+                            }
+                            // an included file whose name also exists in the INCLUDE_DIR directory
+                            if v != root && (0..n).any(|u| edges[u] >> v & 1 == 1) && !f(ctx, &Graph { shadow_of: Some(v), ..base.clone() }) {
                                 return;
                             }
                             if v != root && !f(ctx, &Graph { incdir_file: Some(v), ..base.clone() }) {
@@ -367,7 +385,7 @@ impl Engine for C16 {
     fn rule(&self, tier: Tier) -> String {
         format!(
             "every directed graph with self-loops on n files x every root: all edge sets for n <= 4 (n <= 3: both declaration orders), n = 5 with out-degree <= {}; \
-             for n <= 3 additionally one file including a missing target, one non-root file present only under INCLUDE_DIR, one file writing its first include statement twice (a multi-edge), one file spelling its first include through `sub/../` (the same file under another spelling), and both together. \
+             for n <= 3 additionally one file including a missing target, one non-root file present only under INCLUDE_DIR, one included file whose name also names another file under INCLUDE_DIR (the own directory wins), one file writing its first include statement twice (a multi-edge), one file spelling its first include through `sub/../` (the same file under another spelling), and both together. \
              non-trivial = the graph has a cycle, a diamond or an unresolvable include; graphs are distinct by construction.",
             tier.pick(1, 2)
         )
@@ -390,7 +408,7 @@ impl Engine for C16 {
                 ctx.trace(|| g.to_json());
                 let fails = eval_graph(g);
                 // non-trivial: cycle, diamond (some file reachable along two paths) or unresolvable include
-                let nontrivial = g.missing_in.is_some() || g.incdir_file.is_some() || has_cycle_or_diamond(g);
+                let nontrivial = g.missing_in.is_some() || g.incdir_file.is_some() || g.shadow_of.is_some() || has_cycle_or_diamond(g);
                 ctx.case(nontrivial);
                 if nontrivial {
                     ctx.sample(|| json!({ "graph": g.witness() }));
